@@ -19,8 +19,17 @@ class C13(Check):
             "of 0..2 workers with Shutdown at every position (tcp k=2 sampled 1/3 in quick), special scenarios "
             "(idle connections, context expiry, double start, unstarted, Shutdown twice, temporary errors, two "
             "requests on one connection, client close, late requests, Shutdown racing with start), 60 "
-            "unsynchronised random runs; every boundary-event log is checked by direct oracles and for acceptance "
-            "by the LTS inside Coq; 12 runs over real loopback UDP/TCP sockets with the direct oracles; goroutine "
+            "unsynchronised random runs; Shutdown forced AT every step of the read loop a fake can hold a server "
+            "thread at (inside SetReadDeadline(future) of the PacketConn / a connection, where a Shutdown call must "
+            "be blocked on srv.lock - observed in the goroutine dump -, inside Read / ReadFrom after the request / "
+            "packet was consumed, inside Accept after a connection was taken, inside MsgAcceptFunc, inside Close), "
+            "first / later iterations, with and without another handler in flight, waiting and context-expiry "
+            "Shutdown; the same Server value started again after Shutdown (every ordered pair of 9-10 kinds of "
+            "life, sampled 3-4 life histories, Shutdown between lives), judged per life by the oracles and as a "
+            "whole by the model (lts_lives: every life accepted from the initial state, previous life over in every "
+            "state its log allows); a restart while the previous serve call is still draining (direct oracles); "
+            "every boundary-event log is checked by direct oracles and for acceptance "
+            "by the LTS inside Coq; 12 Server values over real loopback UDP/TCP sockets, each living twice, with the direct oracles; goroutine "
             "count back at baseline after every scenario. A case is one event log; distinct by hash.")
     partial = [
         "goroutine leaks and data races are run-time facts: the harness checks that the goroutine count returns to "
@@ -28,7 +37,10 @@ class C13(Check):
         "(CGO is off in the sandbox); the theorems carry the protocol logic only",
         "the Go scheduler, sync.RWMutex / WaitGroup / channel semantics and net deadlines are modelled (one "
         "transition per lock region, deadline in the past makes a blocked read fail), not verified",
-        "restart after Shutdown (Server.init replacing srv.shutdown / srv.conns), Hijack, MaxTCPQueries and "
+        "a restart of the same Server value is modelled only once the previous life is over (serve call and every "
+        "Shutdown / start call returned: epoch_over, restart, reachable_r); a start while the previous serve call "
+        "is still draining after a context-expired ShutdownContext is outside the LTS and covered by direct oracles "
+        "only (known finding C13/restart-while-draining/connection-outlives-shutdown); Hijack, MaxTCPQueries and "
         "handler-initiated Close are outside the LTS; a start that fails in serveUDP before its loop is modelled "
         "(SFailStart) only while no Shutdown call has slipped in between (docs/C13.md, residual corner)",
         "liveness is proved as progress (some server step is enabled while Shutdown waits), not as termination "
